@@ -277,8 +277,12 @@ PROPS["C03"] = {
         "not modelled are sampled by the supervised worker only — that part is a search, not a proof",
     ],
     "assumptions": ["'moderately sized' = |line| ≤ 6, span ≤ 4, lengths ≤ 400, ≤ 16 nodes in the sampled domain"],
-    "undischarged": ["finiteness of the float results (no NaN/inf) and absence of float-induced hangs in flexbox.rs and grid track "
-                     "sizing beyond the proved loop terminations: sampled only",
+    "undischarged": ["finiteness of every number (Props/C03Finite*.lean, models at the extended numbers ER): proved for the leaf, the root driver, "
+                     "the block and flex programs and the evaluator over them (every tree without grid containers, any number of passes), under "
+                     "the hypothesis that no aspect ratio is 0 — which is exact: C03Finite.leaf_ratio_zero_not_finite / "
+                     "block_ratio_zero_inf_and_nan exhibit inf and NaN in Layouts for aspect_ratio Some(0.0), replayed on the real code "
+                     "(notes/witness/c03_aspect_ratio_zero.rs); the grid program's finiteness and float-induced hangs beyond the proved loop "
+                     "terminations: sampled only; overflow of finite f32 arithmetic is outside the model",
                      ],
     # grid placement_total is proved (Props/C03GridTotal.lean): for explicit counts 0..B, |line| <= B, span <= B, <= N children with
     # (N+5)*(B+2) <= 16000 (e.g. B = N = 100) run returns ok: no panic, no overflow, no outOfFuel
